@@ -302,4 +302,415 @@ theorem parenOk_infix (s a v rest : Str) (hs : ParenOk s) (e : s = a ++ v ++ res
         · subst h1; rw [declN_41] at hc0; cases hc0
   · exact ⟨mid, c', by rw [e1]; simp, hm⟩
 
+/-! ### the url remover `url\s*\([^)]*\)\s*` with IGNORECASE (since fix COMMIT_B) -/
+
+def isU (c : Nat) : Prop := c = 85 ∨ c = 117
+def isR (c : Nat) : Prop := c = 82 ∨ c = 114
+def isL (c : Nat) : Prop := c = 76 ∨ c = 108
+
+/-- `t` starts with `[uU][rR][lL](` -/
+def urlOpen : Str → Bool
+  | u :: r :: l :: p :: _ => (u == 85 || u == 117) && (r == 82 || r == 114) && (l == 76 || l == 108) && p == 40
+  | _ => false
+
+theorem urlOpen_iff (t : Str) : urlOpen t = true ↔ ∃ u r l t', t = u :: r :: l :: 40 :: t' ∧ isU u ∧ isR r ∧ isL l := by
+  constructor
+  · intro h
+    rcases t with _ | ⟨u, _ | ⟨r, _ | ⟨l, _ | ⟨p, t'⟩⟩⟩⟩ <;> simp only [urlOpen, Bool.false_eq_true] at h
+    simp only [Bool.and_eq_true, Bool.or_eq_true, beq_iff_eq] at h
+    obtain ⟨⟨⟨hu, hr⟩, hl⟩, rfl⟩ := h
+    exact ⟨u, r, l, t', rfl, hu, hr, hl⟩
+  · rintro ⟨u, r, l, t', rfl, hu, hr, hl⟩
+    simp only [urlOpen, Bool.and_eq_true, Bool.or_eq_true, beq_iff_eq]
+    exact ⟨⟨⟨hu, hr⟩, hl⟩, trivial⟩
+
+/-- the translated pattern: IGNORECASE turns each of `u`, `r`, `l` into the class of its two case variants (the
+generator evaluates Python's compiled item on every code point: there is no third variant) -/
+theorem reCssUrl_shape : H5.Gen.San.reCssUrl =
+    Re.cat (.cls false [.range 85 85, .range 117 117]) (Re.cat (.cls false [.range 82 82, .range 114 114])
+      (Re.cat (.cls false [.range 76 76, .range 108 108]) (Re.cat (.rep 0 none true (.cls false [.space]))
+        (Re.cat (.lit 40) (Re.cat (.rep 0 none true (.notLit 41)) (Re.cat (.lit 41)
+          (Re.cat (.rep 0 none true (.cls false [.space])) .empty))))))) := rfl
+
+/-- `[uU][rR][lL](` + any `)`-free text + `)` is a word of the remover's exact language -/
+theorem cssUrl_langX (total : Nat) (u r l : Nat) (x y : Str) (hu : isU u) (hr : isR r) (hl : isL l) (hx : 41 ∉ x) :
+    LangX cl total H5.Gen.San.reCssUrl (u :: r :: l :: 40 :: (x ++ [41])) y := by
+  rw [reCssUrl_shape]
+  refine ⟨[u], r :: l :: 40 :: (x ++ [41]), rfl, ⟨u, rfl, ?_⟩, [r], l :: 40 :: (x ++ [41]), rfl, ⟨r, rfl, ?_⟩,
+    [l], 40 :: (x ++ [41]), rfl, ⟨l, rfl, ?_⟩, [], 40 :: (x ++ [41]), rfl, RepX.done _ _, [40], x ++ [41], rfl, rfl,
+    x, [41], rfl, ?_, [41], [], rfl, rfl, [], [], rfl, RepX.done _ _, rfl⟩
+  · rcases hu with rfl | rfl <;> decide
+  · rcases hr with rfl | rfl <;> decide
+  · rcases hl with rfl | rfl <;> decide
+  · apply repX_chars
+    intro c hc _
+    exact ⟨c, rfl, fun e => hx (e ▸ hc)⟩
+
+theorem split_at_first (p : Nat) (t : Str) (h : p ∈ t) : ∃ x y, t = x ++ p :: y ∧ p ∉ x := by
+  induction t with
+  | nil => simp at h
+  | cons c r ih =>
+    by_cases hc : c = p
+    · exact ⟨[], r, by simp [hc], by simp⟩
+    · simp only [List.mem_cons] at h
+      rcases h with h | h
+      · exact absurd h.symm hc
+      · obtain ⟨x, y, e, hx⟩ := ih h
+        refine ⟨c :: x, y, by rw [e]; rfl, ?_⟩
+        simp only [List.mem_cons, not_or]
+        exact ⟨fun e' => hc e'.symm, hx⟩
+
+/-- **the remover cannot miss**: an attempt at `[uU][rR][lL](` with a `)` anywhere behind it does not report
+"no match" (it matches, or the engine runs out of fuel) -/
+theorem cssUrl_complete (total fuel : Nat) (u r l : Nat) (t' : Str) (hu : isU u) (hr : isR r) (hl : isL l) (h41 : 41 ∈ t') :
+    ¬ Fails cl total fuel H5.Gen.San.reCssUrl (u :: r :: l :: 40 :: t') := by
+  rintro ⟨adv, sk, hf⟩
+  obtain ⟨x, y, e, hx⟩ := split_at_first 41 t' h41
+  have := attempt_complete cl total fuel _ adv sk _ hf (u :: r :: l :: 40 :: (x ++ [41])) y (by rw [e]; simp)
+    (cssUrl_langX total u r l x y hu hr hl hx)
+  cases this.2
+
+/-- every match of the remover contains a `)` -/
+theorem cssUrl_hit_41 (total fuel : Nat) (adv : Bool) (sk : Nat) (t : Str) (m : Match)
+    (h : attempt cl total fuel H5.Gen.San.reCssUrl adv sk t = .ok (some m)) : 41 ∈ m.text := by
+  obtain ⟨_, hl, _⟩ := attempt_lang cl total fuel _ adv sk t m h
+  rw [reCssUrl_shape] at hl
+  obtain ⟨a1, b1, e1, _, a2, b2, e2, _, a3, b3, e3, _, a4, b4, e4, _, a5, b5, e5, _, a6, b6, e6, _, a7, b7, e7, h7, _⟩ := hl
+  have h7 : a7 = [41] := h7
+  rw [e1, e2, e3, e4, e5, e6, e7, h7]
+  simp
+
+/-- `UrlFree R s`: wherever `[uU][rR][lL](` occurs in `s`, the text behind the `(` satisfies `R`
+(`UrlFree (fun _ => False) s`: it occurs nowhere) -/
+def UrlFree (R : Str → Prop) (s : Str) : Prop :=
+  ∀ a u r l t', s = a ++ u :: r :: l :: 40 :: t' → isU u → isR r → isL l → R t'
+
+/-- the characters of `[uU][rR][lL](` -/
+def urlChar (c : Nat) : Bool := c == 85 || c == 117 || c == 82 || c == 114 || c == 76 || c == 108 || c == 40
+
+theorem urlChar_U (c : Nat) (h : isU c) : urlChar c = true := by rcases h with rfl | rfl <;> rfl
+theorem urlChar_R (c : Nat) (h : isR c) : urlChar c = true := by rcases h with rfl | rfl <;> rfl
+theorem urlChar_L (c : Nat) (h : isL c) : urlChar c = true := by rcases h with rfl | rfl <;> rfl
+
+theorem urlFree_nil (R : Str → Prop) : UrlFree R [] := by
+  intro a u r l t' e
+  simp at e
+
+theorem urlFree_of_no_paren (s : Str) (h : 40 ∉ s) : UrlFree (fun _ => False) s := by
+  intro a u r l t' e _ _ _
+  exact h (by rw [e]; simp)
+
+/-- gluing with a separator that is not one of the characters of `url(` creates no new occurrence -/
+theorem urlFree_sep (R : Str → Prop) (x y : Str) (c : Nat) (hx : UrlFree (fun _ => False) x) (hy : UrlFree R y)
+    (hc : urlChar c = false) : UrlFree R (x ++ c :: y) := by
+  intro a u r l t' e hu hr hl
+  have nu : c ≠ u := fun h => by rw [h, urlChar_U u hu] at hc; cases hc
+  have nr : c ≠ r := fun h => by rw [h, urlChar_R r hr] at hc; cases hc
+  have nl : c ≠ l := fun h => by rw [h, urlChar_L l hl] at hc; cases hc
+  have n40 : c ≠ 40 := fun h => by rw [h] at hc; cases hc
+  rcases List.append_eq_append_iff.1 e with ⟨a', ea, et⟩ | ⟨c', ex, et⟩
+  · cases a' with
+    | nil =>
+      simp only [List.nil_append, List.cons.injEq] at et
+      exact absurd et.1 nu
+    | cons z a'' =>
+      simp only [List.cons_append, List.cons.injEq] at et
+      exact hy a'' u r l t' et.2 hu hr hl
+  · rcases c' with _ | ⟨c1, _ | ⟨c2, _ | ⟨c3, _ | ⟨c4, c''⟩⟩⟩⟩
+    · simp only [List.nil_append, List.cons.injEq] at et
+      exact absurd et.1.symm nu
+    · simp only [List.cons_append, List.nil_append, List.cons.injEq] at et
+      exact absurd et.2.1.symm nr
+    · simp only [List.cons_append, List.nil_append, List.cons.injEq] at et
+      exact absurd et.2.2.1.symm nl
+    · simp only [List.cons_append, List.nil_append, List.cons.injEq] at et
+      exact absurd et.2.2.2.1.symm n40
+    · simp only [List.cons_append, List.cons.injEq] at et
+      obtain ⟨rfl, rfl, rfl, rfl, _⟩ := et
+      exact (hx a _ _ _ c'' ex hu hr hl).elim
+
+theorem urlFree_infix (s a v rest : Str) (hs : UrlFree (fun _ => False) s) (e : s = a ++ v ++ rest) :
+    UrlFree (fun _ => False) v := by
+  intro a1 u r l t' ev hu hr hl
+  exact hs (a ++ a1) u r l (t' ++ rest) (by rw [e, ev]; simp) hu hr hl
+
+/-- what `finditer` leaves between and after the matches of the remover, glued with the replacement `' '`:
+`[uU][rR][lL](` survives only where no `)` follows at all -/
+theorem chain_urlFree (total fuel : Nat) : ∀ (ms : List (Str × Match)) (s tail : Str),
+    Chain cl total fuel H5.Gen.San.reCssUrl s ms tail →
+    UrlFree (fun t' => 41 ∉ t') (ms.foldr (fun pm acc => pm.1 ++ [32] ++ acc) tail) := by
+  intro ms
+  induction ms with
+  | nil =>
+    intro s tail ⟨hs, hf⟩
+    intro a u r l t' e hu hr hl h41
+    exact cssUrl_complete total fuel u r l t' hu hr hl h41 (hf a _ (by rw [hs]; exact e))
+  | cons pm rest ih =>
+    intro s tail ⟨_, hpre, ⟨adv, sk, hatt⟩, hch⟩
+    rw [List.foldr_cons, List.append_assoc]
+    refine urlFree_sep _ pm.1 _ 32 ?_ (ih _ _ hch) (by decide)
+    intro a u r l t' e hu hr hl
+    have h41 := cssUrl_hit_41 total fuel adv sk _ pm.2 hatt
+    refine cssUrl_complete total fuel u r l (t' ++ (pm.2.text ++ pm.2.rest)) hu hr hl ?_ ?_
+    · simp [h41]
+    · have := hpre a (u :: r :: l :: 40 :: t') e (by simp)
+      simpa using this
+
+/-- **the repaired remover**: in `pattern.sub(' ', style)` a `[uU][rR][lL](` is never followed by a `)` -/
+theorem sub_cssUrl_free (s out : Str) (h : sub cl H5.Gen.San.reCssUrl [32] s = .ok out) : UrlFree (fun t' => 41 ∉ t') out := by
+  simp only [sub, bind_eq_ok, pure, Except.pure, Except.ok.injEq] at h
+  obtain ⟨⟨ms, tail⟩, hm, rfl⟩ := h
+  exact chain_urlFree _ _ ms s tail (allMatches_chain cl _ s ms tail hm)
+
+/-- together with the first gauntlet (every `(` is closed): no `[uU][rR][lL](` at all -/
+theorem urlFree_of_parenOk (s : Str) (h1 : UrlFree (fun t' => 41 ∉ t') s) (h2 : ParenOk s) : UrlFree (fun _ => False) s := by
+  intro a u r l t' e hu hr hl
+  obtain ⟨mid, rest, eb, _⟩ := h2 (a ++ [u, r, l]) t' (by rw [e]; simp)
+  exact h1 a u r l t' e hu hr hl (by rw [eb]; simp)
+
+/-! ### the local-href test `re.search(r'^\s*[^#\s].*', v)` -/
+
+/-- Python's `\s` for `str` patterns -/
+def isPySpace (c : Nat) : Bool := inRanges H5.Gen.San.spaceClass c
+
+/-- the value is empty, all white space, or its first non-white-space character is `#` -/
+def localRef (v : Str) : Bool :=
+  match v.dropWhile isPySpace with
+  | [] => true
+  | c :: _ => c == 35
+
+theorem reLocalHref_shape : H5.Gen.San.reLocalHref =
+    Re.cat .bos (Re.cat (.rep 0 none true (.cls false [.space])) (Re.cat (.cls true [.range 35 35, .space])
+      (Re.cat (.rep 0 none true .any) .empty))) := rfl
+
+theorem cls_space (c : Nat) : classTest cl false [.space] c = isPySpace c := by
+  simp [classTest, CItem.test, isPySpace, cl, H5.Gen.San.reClasses]
+
+theorem cls_not_hash_space (c : Nat) : classTest cl true [.range 35 35, .space] c = (!(c == 35) && !isPySpace c) := by
+  have e : (decide (35 ≤ c) && decide (c ≤ 35)) = (c == 35) := by
+    by_cases h : c = 35
+    · subst h; rfl
+    · have h1 : (c == 35) = false := by simpa using h
+      rw [h1]
+      by_cases h2 : 35 ≤ c
+      · have : ¬ c ≤ 35 := by omega
+        simp [h2, this]
+      · simp [h2]
+  simp only [classTest, CItem.test, isPySpace, cl, H5.Gen.San.reClasses, List.any_cons, List.any_nil, Bool.or_false, e]
+  cases (c == 35) <;> cases inRanges H5.Gen.San.spaceClass c <;> rfl
+
+/-- `re.search` finds nothing exactly on the values that are local references in the sense of `localRef`
+(this direction: nothing found ⇒ `localRef`; the converse is `localHref_search_some`, both: `localHref_search_iff`) -/
+theorem localHref_search_none (v : Str) (h : search cl H5.Gen.San.reLocalHref v = .ok none) : localRef v = true := by
+  unfold search at h
+  obtain ⟨adv, sk, hf⟩ := searchAux_none cl _ _ _ v false 0 h [] v rfl
+  unfold localRef
+  rcases dropWhile_head isPySpace v with hd | ⟨c, rest, hd, hc⟩
+  · rw [hd]
+  · rw [hd]
+    by_cases h35 : c = 35
+    · simp [h35]
+    · exfalso
+      have ev : v = v.takeWhile isPySpace ++ c :: rest := by rw [← hd, List.takeWhile_append_dropWhile]
+      have := attempt_complete cl _ _ _ adv sk v hf
+        (v.takeWhile isPySpace ++ c :: rest.takeWhile (· ≠ 10)) (rest.dropWhile (· ≠ 10))
+        (by rw [List.append_assoc, List.cons_append, List.takeWhile_append_dropWhile]; exact ev)
+        (by
+          rw [reLocalHref_shape]
+          refine ⟨[], _, (List.nil_append _).symm, ⟨rfl, ?_⟩, v.takeWhile isPySpace, c :: rest.takeWhile (· ≠ 10), rfl, ?_,
+            [c], rest.takeWhile (· ≠ 10), rfl, ⟨c, rfl, ?_⟩, rest.takeWhile (· ≠ 10), [], (List.append_nil _).symm, ?_, rfl⟩
+          · rw [List.append_assoc, List.cons_append, List.takeWhile_append_dropWhile, ← ev]
+          · apply repX_chars
+            intro d hd' _
+            exact ⟨d, rfl, by rw [cls_space]; exact mem_takeWhile_imp isPySpace v d hd'⟩
+          · rw [cls_not_hash_space, hc]; simp [h35]
+          · apply repX_chars
+            intro d hd' _
+            exact ⟨d, rfl, by simpa using mem_takeWhile_imp (· ≠ 10) rest d hd'⟩)
+      have hnil := this.2
+      simp at hnil
+
+theorem dropWhile_append_stop (p : Nat → Bool) (ws : Str) (c : Nat) (r : Str) (hws : ∀ x ∈ ws, p x = true) (hc : p c = false) :
+    (ws ++ c :: r).dropWhile p = c :: r := by
+  induction ws with
+  | nil => simp [hc]
+  | cons x t ih =>
+    simp only [List.cons_append, List.dropWhile_cons, hws x List.mem_cons_self, if_true]
+    exact ih (fun y hy => hws y (List.mem_cons_of_mem _ hy))
+
+theorem run_cat_step (total f : Nat) (a b : Re) (s : Str) (caps : Caps) (k : Cont) :
+    run cl total (f + 1) (.cat a b) s caps k = run cl total f a s caps (fun s' c' => run cl total f b s' c' k) := rfl
+
+theorem run_bos_step (total f : Nat) (s : Str) (caps : Caps) (k : Cont) :
+    run cl total (f + 1) .bos s caps k = if s.length = total then k s caps else .ok none := rfl
+
+/-- `^` at the head of a pattern: a successful run starts at offset 0 of the subject -/
+theorem run_bos_cat (total f : Nat) (X : Re) (s : Str) (caps : Caps) (k : Cont) (res : Str × Caps)
+    (h : run cl total f (.cat .bos X) s caps k = .ok (some res)) :
+    s.length = total ∧ ∃ f', run cl total f' X s caps k = .ok (some res) := by
+  cases f with
+  | zero => simp [run] at h
+  | succ f =>
+    rw [run_cat_step] at h
+    cases f with
+    | zero => simp [run] at h
+    | succ f =>
+      rw [run_bos_step] at h
+      split at h
+      · rename_i hl; exact ⟨hl, f + 1, h⟩
+      · cases h
+
+/-- the converse of `localHref_search_none`: a hit means the first non-white-space character exists and is not `#` -/
+theorem localHref_search_some (v : Str) (m : Match) (h : search cl H5.Gen.San.reLocalHref v = .ok (some m)) :
+    localRef v = false := by
+  unfold search at h
+  obtain ⟨pre, ev, _, _, adv, sk, hatt⟩ := searchAux_some cl _ _ _ v false 0 m h
+  obtain ⟨_, hr⟩ := attempt_sound cl _ _ _ adv sk _ m hatt
+  rw [reLocalHref_shape] at hr
+  obtain ⟨hlen, f', hr⟩ := run_bos_cat _ _ _ _ _ _ _ hr
+  have hpre : pre = [] := by
+    have := congrArg List.length ev
+    rw [List.length_append] at this
+    exact List.eq_nil_of_length_eq_zero (by omega)
+  subst hpre
+  simp only [List.nil_append] at ev
+  obtain ⟨w, s', c', e, hl, _, _⟩ := run_sound cl _ _ _ _ _ _ _ hr
+  obtain ⟨ws, r1, rfl, hst, cw, r2, rfl, ⟨c, rfl, hc⟩, _⟩ := hl
+  have hall := star_cls_all (fun d => classTest cl false [.space] d = true) _ _ hst
+  rw [cls_not_hash_space] at hc
+  simp only [Bool.and_eq_true, Bool.not_eq_true', beq_eq_false_iff_ne, ne_eq] at hc
+  unfold localRef
+  rw [ev, e, List.append_assoc, List.append_assoc, List.singleton_append,
+    dropWhile_append_stop isPySpace ws c _ (fun x hx => by rw [← cls_space]; exact hall x hx) hc.2]
+  simp [hc.1]
+
+/-- **what `re.search(r'^\s*[^#\s].*', v)` means**: it finds something iff `v` is not a local reference -/
+theorem localHref_search_iff (v : Str) (o : Option Match) (h : search cl H5.Gen.San.reLocalHref v = .ok o) :
+    o.isSome = !localRef v := by
+  cases o with
+  | none => simp [localHref_search_none v h]
+  | some m => simp [localHref_search_some v m h]
+
+/-! ### the guard `if re.search(r'url\s*\(', style, re.I): return ''` (fix COMMIT_B) -/
+
+/-- `t` starts with `[uU][rR][lL]`, zero or more characters of Python's `\s`, and `(` -/
+def urlOpenS : Str → Bool
+  | u :: r :: l :: rest =>
+    (u == 85 || u == 117) && (r == 82 || r == 114) && (l == 76 || l == 108) &&
+      (match rest.dropWhile isPySpace with
+       | 40 :: _ => true
+       | _ => false)
+  | _ => false
+
+theorem urlOpenS_decomp (t : Str) (h : urlOpenS t = true) :
+    ∃ u r l ws t', t = u :: r :: l :: (ws ++ 40 :: t') ∧ isU u ∧ isR r ∧ isL l ∧ ∀ c ∈ ws, isPySpace c = true := by
+  rcases t with _ | ⟨u, _ | ⟨r, _ | ⟨l, rest⟩⟩⟩ <;> simp only [urlOpenS, Bool.false_eq_true] at h
+  simp only [Bool.and_eq_true, Bool.or_eq_true, beq_iff_eq] at h
+  obtain ⟨⟨⟨hu, hr⟩, hl⟩, hd⟩ := h
+  split at hd
+  · rename_i t' hdw
+    refine ⟨u, r, l, rest.takeWhile isPySpace, t', ?_, hu, hr, hl, mem_takeWhile_imp isPySpace rest⟩
+    rw [← hdw, List.takeWhile_append_dropWhile]
+  · cases hd
+
+theorem reCssUrlGuard_shape : H5.Gen.San.reCssUrlGuard =
+    Re.cat (.cls false [.range 85 85, .range 117 117]) (Re.cat (.cls false [.range 82 82, .range 114 114])
+      (Re.cat (.cls false [.range 76 76, .range 108 108]) (Re.cat (.rep 0 none true (.cls false [.space]))
+        (Re.cat (.lit 40) .empty)))) := rfl
+
+theorem guard_langX (total : Nat) (u r l : Nat) (ws y : Str) (hu : isU u) (hr : isR r) (hl : isL l)
+    (hws : ∀ c ∈ ws, isPySpace c = true) : LangX cl total H5.Gen.San.reCssUrlGuard (u :: r :: l :: (ws ++ [40])) y := by
+  rw [reCssUrlGuard_shape]
+  refine ⟨[u], r :: l :: (ws ++ [40]), rfl, ⟨u, rfl, ?_⟩, [r], l :: (ws ++ [40]), rfl, ⟨r, rfl, ?_⟩,
+    [l], ws ++ [40], rfl, ⟨l, rfl, ?_⟩, ws, [40], rfl, ?_, [40], [], rfl, rfl, rfl⟩
+  · rcases hu with rfl | rfl <;> decide
+  · rcases hr with rfl | rfl <;> decide
+  · rcases hl with rfl | rfl <;> decide
+  · apply repX_chars
+    intro c hc _
+    exact ⟨c, rfl, by rw [cls_space]; exact hws c hc⟩
+
+/-- `UrlFreeS s`: `[uU][rR][lL]\s*(` occurs nowhere in `s` -/
+def UrlFreeS (s : Str) : Prop :=
+  ∀ a u r l ws t', s = a ++ u :: r :: l :: (ws ++ 40 :: t') → isU u → isR r → isL l → (∀ c ∈ ws, isPySpace c = true) → False
+
+/-- **the guard cannot miss**: a style on which the guard's `re.search` finds nothing contains no `url\s*(` -/
+theorem guard_urlFreeS (s : Str) (h : search cl H5.Gen.San.reCssUrlGuard s = .ok none) : UrlFreeS s := by
+  intro a u r l ws t' e hu hr hl hws
+  unfold search at h
+  obtain ⟨adv, sk, hf⟩ := searchAux_none cl _ _ _ s false 0 h a _ e
+  have := attempt_complete cl _ _ _ adv sk _ hf (u :: r :: l :: (ws ++ [40])) t' (by simp)
+    (guard_langX _ u r l ws t' hu hr hl hws)
+  cases this.2
+
+theorem urlFreeS_nil : UrlFreeS [] := by
+  intro a u r l ws t' e
+  simp at e
+
+theorem urlFreeS_of_no_paren (s : Str) (h : 40 ∉ s) : UrlFreeS s := by
+  intro a u r l ws t' e _ _ _ _
+  exact h (by rw [e]; simp)
+
+/-- a character that is not `u`/`U` in front starts no new occurrence -/
+theorem urlFreeS_cons (c : Nat) (y : Str) (hc : ¬ isU c) (hy : UrlFreeS y) : UrlFreeS (c :: y) := by
+  intro a u r l ws t' e hu hr hl hws
+  cases a with
+  | nil =>
+    simp only [List.nil_append, List.cons.injEq] at e
+    exact hc (e.1 ▸ hu)
+  | cons z a' =>
+    simp only [List.cons_append, List.cons.injEq] at e
+    exact hy a' u r l ws t' e.2 hu hr hl hws
+
+theorem isPySpace_40 : isPySpace 40 = false := by decide +kernel
+
+/-- gluing with a separator that is neither a character of `url(` nor white space creates no new occurrence -/
+theorem urlFreeS_sep (x y : Str) (c : Nat) (hx : UrlFreeS x) (hy : UrlFreeS y) (hc : urlChar c = false)
+    (hsp : isPySpace c = false) : UrlFreeS (x ++ c :: y) := by
+  intro a u r l ws t' e hu hr hl hws
+  have nu : c ≠ u := fun h => by rw [h, urlChar_U u hu] at hc; cases hc
+  have nr : c ≠ r := fun h => by rw [h, urlChar_R r hr] at hc; cases hc
+  have nl : c ≠ l := fun h => by rw [h, urlChar_L l hl] at hc; cases hc
+  have n40 : c ≠ 40 := fun h => by rw [h] at hc; cases hc
+  rcases List.append_eq_append_iff.1 e with ⟨a', ea, et⟩ | ⟨c', ex, et⟩
+  · cases a' with
+    | nil =>
+      simp only [List.nil_append, List.cons.injEq] at et
+      exact absurd et.1 nu
+    | cons z a'' =>
+      simp only [List.cons_append, List.cons.injEq] at et
+      exact hy a'' u r l ws t' et.2 hu hr hl hws
+  · rcases c' with _ | ⟨c1, _ | ⟨c2, _ | ⟨c3, c4⟩⟩⟩
+    · simp only [List.nil_append, List.cons.injEq] at et
+      exact absurd et.1.symm nu
+    · simp only [List.cons_append, List.nil_append, List.cons.injEq] at et
+      exact absurd et.2.1.symm nr
+    · simp only [List.cons_append, List.nil_append, List.cons.injEq] at et
+      exact absurd et.2.2.1.symm nl
+    · simp only [List.cons_append, List.cons.injEq] at et
+      obtain ⟨rfl, rfl, rfl, et⟩ := et
+      -- `ws ++ 40 :: t' = c4 ++ c :: y`: `c` lies in `ws`, is the `(`, or the whole occurrence lies in `x`
+      rcases List.append_eq_append_iff.1 et with ⟨w2, e1, e2⟩ | ⟨d, e1, e2⟩
+      · cases w2 with
+        | nil =>
+          simp only [List.nil_append, List.cons.injEq] at e2
+          exact absurd e2.1.symm n40
+        | cons z w2' =>
+          simp only [List.cons_append, List.cons.injEq] at e2
+          obtain ⟨rfl, _⟩ := e2
+          exact hx a _ _ _ ws w2' (by rw [ex, e1]) hu hr hl hws
+      · cases d with
+        | nil =>
+          simp only [List.nil_append, List.cons.injEq] at e2
+          exact absurd e2.1 n40
+        | cons z d' =>
+          simp only [List.cons_append, List.cons.injEq] at e2
+          obtain ⟨rfl, _⟩ := e2
+          have : isPySpace c = true := hws c (by rw [e1]; simp)
+          rw [hsp] at this; cases this
+
+theorem urlFreeS_infix (s a v rest : Str) (hs : UrlFreeS s) (e : s = a ++ v ++ rest) : UrlFreeS v := by
+  intro a1 u r l ws t' ev hu hr hl hws
+  exact hs (a ++ a1) u r l ws (t' ++ rest) (by rw [e, ev]; simp) hu hr hl hws
+
 end H5.Model.Sanitizer
